@@ -28,8 +28,17 @@
    layer -- is not reachable; the invariant proved in Proofs/SinkQueueFacts.v covers that shape of message anyway),
    clones of the sink, unsubscribe (closes through IsUnsubscribed: Model/SubBook.v), the closing notification of a
    returning handler, SubscriptionMessage::new (a handler-made Complete message), payloads other than decimal
-   numbers, string subscription ids, capacity 0 (tokio panics on channel(0); the model simply never has room). *)
+   numbers, capacity 0 (tokio panics on channel(0); the model simply never has room).
+
+   The subscription id is a `Wire.subid` = SubscriptionId::{Num(u64), Str(String)}: whatever the connection's
+   IdProvider returned (numbers from the built-in providers, ANY string from a custom `IdProvider`).  serde writes
+   it into every notification through `Wire.ser_subid` (a string id is a JSON string: quotes, backslashes and
+   control characters escaped per Json/JsonSer.v).  A plain number n is read as SubNum n (coercion below), so the
+   statements about numeric ids keep their text. *)
 From JV Require Import Base.Bytes Base.Dec Json.Json Json.JsonSer Model.Wire.
+
+Coercion SubNum : N >-> subid.
+Bind Scope N_scope with subid.
 
 (* ---------- messages ---------- *)
 Inductive smsg :=
@@ -38,10 +47,10 @@ Inductive smsg :=
 
 (* serde output of SubscriptionResponse { jsonrpc, method, params: SubscriptionPayload { subscription, result } }:
    {"jsonrpc":"2.0","method":<method>,"params":{"subscription":<sid>,"result":<raw>}}  (Wire.ser_sub_notif) *)
-Definition wrap (sid : N) (me : bytes) (raw : bytes) : bytes := ser_sub_notif me (SubNum sid) false raw.
+Definition wrap (sid : subid) (me : bytes) (raw : bytes) : bytes := ser_sub_notif me sid false raw.
 
 (* sub_message_to_json *)
-Definition to_json (sid : N) (me : bytes) (m : smsg) : bytes :=
+Definition to_json (sid : subid) (me : bytes) (m : smsg) : bytes :=
   match m with
   | Complete j => j
   | NeedsData raw => wrap sid me raw
@@ -50,7 +59,7 @@ Definition to_json (sid : N) (me : bytes) (m : smsg) : bytes :=
 (* what the handler produces: the number x as JSON, given to the sink as Box<RawValue> *)
 Definition payload (x : N) : bytes := print_N x.
 Definition fresh (x : N) : smsg := NeedsData (payload x).
-Definition item (sid : N) (me : bytes) (x : N) : bytes := wrap sid me (payload x).
+Definition item (sid : subid) (me : bytes) (x : N) : bytes := wrap sid me (payload x).
 
 (* ---------- association lists keyed by slot ---------- *)
 Fixpoint afind {A} (k : N) (l : list (N * A)) : option A :=
@@ -92,7 +101,7 @@ Inductive res :=
 Definition room (s : sq) : bool := Nat.ltb (length (q s)) (cap s).
 
 (* one call of the sink with message m; the handed-back message travels in the result *)
-Definition sink_send (p : path) (sid : N) (me : bytes) (s : sq) (m : smsg) : sq * res :=
+Definition sink_send (p : path) (sid : subid) (me : bytes) (s : sq) (m : smsg) : sq * res :=
   if closed s then (s, RClosed m)
   else
     let j := to_json sid me m in
@@ -122,7 +131,7 @@ Inductive op :=
 | ORecv
 | OClose.
 
-Definition step (sid : N) (me : bytes) (s : sq) (o : op) : sq * res :=
+Definition step (sid : subid) (me : bytes) (s : sq) (o : op) : sq * res :=
   match o with
   | OSend p k x => settle k (sink_send p sid me s (fresh x))
   | OResend p k =>
@@ -139,7 +148,7 @@ Definition step (sid : N) (me : bytes) (s : sq) (o : op) : sq * res :=
   end.
 
 (* a history: final state and the trace of (operation, result) *)
-Fixpoint run (sid : N) (me : bytes) (s : sq) (ops : list op) : sq * list (op * res) :=
+Fixpoint run (sid : subid) (me : bytes) (s : sq) (ops : list op) : sq * list (op * res) :=
   match ops with
   | [] => (s, [])
   | o :: ops' =>
